@@ -860,12 +860,17 @@ def add_generics(rng, spec, kn):
     concrete = [t for t, ty in spec["types"].items() if not ty.get("generic") and ty.get("disc") != "moved" and not t.startswith("TL") and not ty.get("lt")]
     if not concrete:
         return
-    lc = rng.choice(["request", "transient"])
+    # a generic *singleton* (`#[singleton] fn cg<T>(t: &T) -> G<T>`) is specialised at singletons only, is built once per
+    # specialisation while the application state is built, and has no second registration anywhere
+    singles = [t for t in concrete if spec["types"][t]["lc"] == "singleton"]
+    lc = rng.choice(["request", "transient"] + (["singleton"] if singles else []))
+    if lc == "singleton":
+        concrete = singles
     g = "G0"
     spec["types"][g] = {"lc": lc, "disc": "shared", "generic": True, "clone": rng.random() < 0.3}
     spec["ctors"]["CG0"] = {"out": g + "<T>", "ins": [["T", "ref"]], "lc": lc, "generic_param": "T"}
     spec["bp"]["items"].insert(0, ["ctor", "CG0"])
-    if rng.random() < getattr(kn, "p_generic_errors", 0):
+    if lc != "singleton" and rng.random() < getattr(kn, "p_generic_errors", 0):
         # the generic constructor is fallible and its error type has the same type parameter:
         # `fn cg<T>(t: &T) -> Result<G<T>, GE<T>>`, handled by the generic `fn eh<T>(e: &GE<T>) -> Response`
         spec["errors"].append("GE0")
@@ -882,7 +887,7 @@ def add_generics(rng, spec, kn):
         a = args[i % len(args)]
         spec[k][xid].setdefault("ins", []).append(["%s<%s>" % (g, a), "ref"])
     # overrides in nested blueprints (nearest registration wins; a concrete and a generic constructor never share a blueprint)
-    nested = [bp for (bp, d) in _bp_nodes(spec["bp"]) if d > 0]
+    nested = [bp for (bp, d) in _bp_nodes(spec["bp"]) if d > 0] if lc != "singleton" else []
     rng.shuffle(nested)
     for n, bp in enumerate(nested[:rng.choice([0, 1, 1, 2])]):
         if rng.random() < 0.5:
